@@ -30,6 +30,23 @@ def check(prop, tier, seed):
             else:
                 hs.append(dict(id=i + 1, dir="in", ty=rnd.choice(["ALL", "1", "D"]), accept=rnd.random() < 0.7, when="post", mutate=False))
         confs.append(dict(handlers=hs, saveFailAt=rnd.choice([0, 0, 1, 2, 3, 5])))
+    # handlers registered in the middle of the traffic, after messages of their type (and of other types) have passed
+    nlate = 150 if quick else 3000
+    late_from = len(confs)
+    for _ in range(nlate):
+        hs = []
+        for i in range(rnd.randint(0, 3)):
+            if rnd.random() < 0.6:
+                hs.append(dict(id=i + 1, dir="out", ty=rnd.choice(["ALL", "V", "0"]), accept=rnd.random() < 0.8, when=rnd.choice(["pre", "post"]), mutate=False))
+            else:
+                hs.append(dict(id=i + 1, dir="in", ty=rnd.choice(["ALL", "1", "D"]), accept=rnd.random() < 0.7, when="post", mutate=False))
+        base = len(hs)
+        for i in range(rnd.randint(1, 3)):
+            if rnd.random() < 0.6:
+                hs.append(dict(id=base + i + 1, dir="out", ty=rnd.choice(["V", "0", "V", "ALL"]), accept=rnd.random() < 0.5, when="late", mutate=False))
+            else:
+                hs.append(dict(id=base + i + 1, dir="in", ty=rnd.choice(["1", "D", "0", "ALL"]), accept=rnd.random() < 0.7, when="late", mutate=False))
+        confs.append(dict(handlers=hs, saveFailAt=rnd.choice([0, 0, 0, 4]), late=True))
     scns = []
     for i, c in enumerate(confs):
         steps = [dict(a="send", ty="V"), dict(a="recv", ty="1"), dict(a="send", ty="V"), dict(a="recv", ty="D"),
@@ -39,8 +56,13 @@ def check(prop, tier, seed):
                      dict(a="recv", ty="2"), dict(a="send", ty="V")]
         if i % 3 == 1:
             steps = [dict(a="recv", ty="1"), dict(a="recv", ty="0"), dict(a="send", ty="V"), dict(a="send", ty="V"), dict(a="send", ty="V")]
+        late_at = 0
+        if c.get("late"):
+            steps = [dict(a="send", ty="V"), dict(a="recv", ty="1"), dict(a="recv", ty="D"), dict(a="recv", ty="0"),
+                     dict(a="send", ty="V"), dict(a="recv", ty="1"), dict(a="recv", ty="D"), dict(a="recv", ty="0"), dict(a="send", ty="V")]
+            late_at = 4
         scns.append(dict(id="d%d" % i, role="acceptor" if i % 2 == 0 else "initiator", handlers=c["handlers"],
-                         saveFailAt=c["saveFailAt"], steps=steps))
+                         saveFailAt=c["saveFailAt"], steps=steps, lateAt=late_at))
     traces = sc.run_driver(run, binp, scns, "dispatch", testname="TestDispatch")
     run.traces = len(scns)
     rejects = sc.validate(run, traces, module="DispatchTrace", mods=["Dispatch.tla", "DispatchTrace.tla"])
